@@ -150,6 +150,34 @@ Theorem C14_discard_rerun : forall id s (ord1 ord2 : order) n,
 Proof. exact Txn_proofs.discard_rerun. Qed.
 Print Assumptions C14_discard_rerun.
 
+(** Failures BELOW the store method: one SQL statement inside an atomic write fails (the
+    reflogs insert or the refs upsert of SetWithLog of some branch, the status UPDATE, the
+    DELETE of a staged ref, DeleteTransaction).  Each such write is atomic, so the operation
+    stops before the first write selected by [f] ([run_write_fault]); whatever [f] is, every
+    branch is then unmoved or landed-and-logged and the re-run completes to the all-branches
+    outcome / the discard completes.  (This is what the commands `wrgl transaction commit` /
+    `discard` are held to on a real badger + sqlite repository; it requires every commit object
+    to be durable before the ref that names it: [WPutCommit] precedes [WSetWithLog].) *)
+Theorem C14_statement_fault : forall id s0 (ord1 ord2 : order) (f : write -> bool),
+  pre id s0 -> order_ok ord1 (staged s0 id) -> order_ok ord2 (staged s0 id) ->
+  let s1 := fst (run_write_fault f (tx_commit ord1 id s0) s0) in
+  (forall b, unmoved s0 s1 b \/ landed id s0 s1 b) /\
+  ((txs s1 id = Some InProgress /\
+    exists s2, run_full (tx_commit ord2 id s1) s1 = (s2, ROk) /\ st_eq s2 (all_outcome id s0)) \/
+   (txs s1 id = Some Committed /\ st_eq s1 (all_outcome id s0))).
+Proof. exact Txn_proofs.statement_fault. Qed.
+Print Assumptions C14_statement_fault.
+
+Theorem C14_statement_fault_discard : forall id s (ord1 ord2 : order) (f : write -> bool),
+  txs s id = Some InProgress -> order_ok ord1 (staged s id) ->
+  let s1 := fst (run_write_fault f (tx_discard ord1 id s) s) in
+  order_ok ord2 (staged s1 id) ->
+  (txs s1 id = Some InProgress /\
+   exists s2, run_full (tx_discard ord2 id s1) s1 = (s2, ROk) /\ staged s2 id = [] /\ txs s2 id = None) \/
+  (txs s1 id = None /\ staged s1 id = []).
+Proof. exact Txn_proofs.statement_fault_discard. Qed.
+Print Assumptions C14_statement_fault_discard.
+
 (** The enumeration orders the executable model is run with are permutations. *)
 Theorem C14_orders : forall perm l, NoDup perm -> order_ok (ord_by perm) l.
 Proof. exact Txn_proofs.ord_by_ok. Qed.
